@@ -300,7 +300,7 @@ def key_pool(r: Any, family: str, n: int, fixture_ratio: float = 0.3) -> list[tu
         real = fx.ec_keys("P-256" if alg == 13 else "P-384")
         r.shuffle(real)
         for i in range(n):
-            if real and r.random() < 0.5:
+            if real and r.random() < min(0.5, 2 * fixture_ratio):
                 pt = real.pop().ec_point(prefix=False)
             else:
                 pt = r.randbytes(64 if alg == 13 else 96)
@@ -368,6 +368,24 @@ def base_case(r: Any, family: str, nb: int) -> tuple[dict[str, Any], dict[str, A
 
 def clone(case: dict[str, Any]) -> dict[str, Any]:
     return {"domain": case["domain"], "bundles": [{"id": b["id"], "keys": [dict(k) for k in b["keys"]]} for b in case["bundles"]], "declared": [dict(d) for d in case["declared"]]}
+
+
+def as_sets(case: dict[str, Any]) -> dict[str, Any]:
+    """a bundle's keys and the declared algorithms are SETS in /repo: drop exact duplicates so that the description and the
+    objects built from it have the same members"""
+    out = clone(case)
+    for b in out["bundles"]:
+        uniq: list[dict[str, Any]] = []
+        for k in b["keys"]:
+            if k not in uniq:
+                uniq.append(k)
+        b["keys"] = uniq
+    decl: list[dict[str, Any]] = []
+    for d in out["declared"]:
+        if d not in decl:
+            decl.append(d)
+    out["declared"] = decl
+    return out
 
 
 def retag(k: dict[str, Any]) -> None:
@@ -725,6 +743,7 @@ def run(tier: str, driver_ok: bool) -> Result:
         for nb in nbs:
             case0, pol0 = base_case(r, family, nb)
             for tag, own, case, pol in corruptions(r, case0, pol0, family, tier):
+                case = as_sets(case)
                 for flags in flag_sets(own, pol, r, tier if len(case["bundles"]) <= 3 else "quick"):
                     p = dict(pol, **flags)
                     try:
